@@ -117,6 +117,7 @@ def check_program(prog, cap):
     joins = any(f in prog.get('features', ()) for f in ('if', 'for', 'while', 'try'))
     split_reads = dyn_common.split_statement_reads(d.tree)
     cond_walrus = dyn_common.conditional_walrus_sites(d.tree)
+    star_kw = dyn_common.star_before_keyword_walrus(d.tree)
     routed = set()
     for names in list(ins.global_decl.values()) + list(ins.nonlocal_decl.values()):
         routed.update(names)
@@ -140,7 +141,9 @@ def check_program(prog, cap):
         for kind, decl in alts:
             decl = tuple(decl)
             if decl in ins.sites and ins.sites[decl][2] == rscope and decl not in dyn_sites:
-                if rid in ins.class_comp_reads:
+                if pos in star_kw:
+                    problems.append(('star-argument-evaluated-before-keyword-walrus', '*%s at %s: supp lists the walrus %s of a keyword argument that CPython evaluates afterwards' % (name, pos, decl)))
+                elif rid in ins.class_comp_reads:
                     problems.append(('class-body-comprehension-sees-class-names', 'read %s at %s inside a comprehension in a class body: supp lists the class-level binding %s, CPython skips the class scope there' % (name, pos, decl)))
                 elif decl in (nrv.sites(pos, name) or ()):
                     after_return.add(decl)
@@ -162,6 +165,8 @@ def check_program(prog, cap):
         if supp_und != dyn_unbound:
             if nrv.unbound(pos, name) is not None and nrv.unbound(pos, name) == supp_und:
                 problems.append(('undefined-flag-after-return', 'read %s at %s: undefined flag supp=%s run time=%s; they agree once return statements are treated as no-ops' % (name, pos, supp_und, dyn_unbound)))
+            elif pos in star_kw:
+                problems.append(('star-argument-evaluated-before-keyword-walrus', '*%s at %s: undefined flag supp=%s run time=%s' % (name, pos, supp_und, dyn_unbound)))
             elif rid in ins.class_comp_reads:
                 problems.append(('class-body-comprehension-sees-class-names', 'read %s at %s: undefined flag supp=%s run time=%s' % (name, pos, supp_und, dyn_unbound)))
             elif in_ann:
@@ -185,6 +190,9 @@ def check_program(prog, cap):
                 if pos in split_reads and name in split_reads[pos]:
                     problems.append(('statement-split-by-comprehension', 'read %s at %s is unbound on every path; supp resolves it to the binding its own statement makes afterwards' % (name, pos)))
                     continue
+                if pos in star_kw:
+                    problems.append(('star-argument-evaluated-before-keyword-walrus', '*%s at %s is unbound on every path (evaluated before the keyword walrus)' % (name, pos)))
+                    continue
                 problems.append(('never-bound-not-flagged:%s' % ctx,
                                  'read %s at %s is unbound on every path but lint does not report Undefined name' % (name, pos)))
     return problems, info
@@ -196,6 +204,7 @@ KNOWN_SIGS = {
     'C03-statement-split-by-comprehension': lambda sig: sig == 'statement-split-by-comprehension',
     'C03-conditional-walrus': lambda sig: sig == 'conditional-walrus-shadows-definition',
     'C03-class-body-comprehension': lambda sig: sig == 'class-body-comprehension-sees-class-names',
+    'C03-star-before-keyword-walrus': lambda sig: sig == 'star-argument-evaluated-before-keyword-walrus',
 }
 _listed = {e['id'] for e in core.load_known(PROPERTY) if e.get('status') == 'finding'}
 KNOWN_SIGS = {k: v for k, v in KNOWN_SIGS.items() if k in _listed}
